@@ -1,0 +1,16 @@
+//go:build verif
+
+package types
+
+// Contracts checked by /verif/govc (contract-based deductive verification).
+// Comment-only: with the `verif` tag off this file is not even parsed.
+
+// The owner of a permission key is the address of the FIRST entry with that key; nil if none.
+//@ func (ACL).GetOwner
+//@   props C36
+//@   panics_never
+//@   modifies nothing
+//@   ensures [found] (exists i int :: 0 <= i && i < len(a) && a[i].Key == permKey) ==> (exists i int :: 0 <= i && i < len(a) && a[i].Key == permKey && (forall j int :: 0 <= j && j < i ==> a[j].Key != permKey) && result == a[i].Addr)
+//@   ensures [absent] (forall i int :: 0 <= i && i < len(a) ==> a[i].Key != permKey) ==> result == nil
+//@   loop 0 invariant 0 - 1 <= rangeindex && rangeindex < len(a)
+//@   loop 0 invariant forall j int :: 0 <= j && j <= rangeindex ==> a[j].Key != permKey
